@@ -93,6 +93,8 @@ func init() {
 		"(*sync.RWMutex).RLock":            mRLock,
 		"(*sync.RWMutex).RUnlock":          mRUnlock,
 		"(*sync.Once).Do":                  nil,
+		"(*sync.Pool).Get":                 mPoolGet,
+		"(*sync.Pool).Put":                 mPoolPut,
 	} {
 		if v == nil {
 			delete(externals, k)
@@ -1113,5 +1115,42 @@ func mRUnlock(fr *frame, args []value) (value, bool) {
 	}
 	cur.sched.logLock(evRUnlock, p)
 	cur.rlocks[p]--
+	return nil, true
+}
+
+// sync.Pool: a plain LIFO free list per pool (one of the behaviours the real
+// pool may show; objects are never dropped).
+func mPoolGet(fr *frame, args []value) (value, bool) {
+	p := args[0].(*value)
+	if cur.pools == nil {
+		cur.pools = map[*value][]value{}
+	}
+	if l := cur.pools[p]; len(l) > 0 {
+		v := l[len(l)-1]
+		cur.pools[p] = l[:len(l)-1]
+		return v, true
+	}
+	st := (*p).(structure)
+	newFn := st[len(st)-1]
+	switch f := newFn.(type) {
+	case *ssa.Function:
+		if f == nil {
+			return iface{}, true
+		}
+	case nil:
+		return iface{}, true
+	}
+	return call(fr.i, fr, 0, newFn, nil), true
+}
+
+func mPoolPut(fr *frame, args []value) (value, bool) {
+	p := args[0].(*value)
+	if cur.pools == nil {
+		cur.pools = map[*value][]value{}
+	}
+	if x, ok := args[1].(iface); ok && x.t == nil {
+		return nil, true
+	}
+	cur.pools[p] = append(cur.pools[p], args[1])
 	return nil, true
 }
